@@ -413,3 +413,42 @@ mod tests {
         assert_eq!(factors.len(), 1);
     }
 }
+
+/// Access to the private pieces of this module for the verification harness.
+#[cfg(feature = "verif-hooks")]
+pub mod verif {
+    use super::{Ell, Point};
+    use num::BigInt;
+    pub type P3 = (BigInt, BigInt, BigInt);
+    fn pt(p: &P3) -> Point {
+        Point {
+            x: p.0.clone(),
+            y: p.1.clone(),
+            z: p.2.clone(),
+        }
+    }
+    fn tp(p: Point) -> P3 {
+        (p.x, p.y, p.z)
+    }
+    fn ell(a: &BigInt, n: &BigInt) -> Ell {
+        Ell {
+            a: a.clone(),
+            n: n.clone(),
+        }
+    }
+    pub fn select_b(n: &BigInt) -> u64 {
+        super::select_b(n)
+    }
+    pub fn point_add(p: &P3, q: &P3, a: &BigInt, n: &BigInt) -> Result<P3, BigInt> {
+        pt(p).add(&pt(q), &ell(a, n)).map(tp)
+    }
+    pub fn point_mul(p: &P3, e: BigInt, a: &BigInt, n: &BigInt) -> Result<P3, BigInt> {
+        pt(p).mul(e, &ell(a, n)).map(tp)
+    }
+    pub fn point_simplify(p: &P3, a: &BigInt, n: &BigInt) -> Result<P3, BigInt> {
+        pt(p).simplify(&ell(a, n)).map(tp)
+    }
+    pub fn ecm_oneshot(p: &P3, a: &BigInt, n: &BigInt, b1: u64, b2: u64) -> Result<(), BigInt> {
+        super::ecm_oneshot(pt(p), ell(a, n), b1, b2)
+    }
+}
